@@ -278,13 +278,13 @@ func evalAlt(d altDesc) ev.Result {
 	cls := fmt.Sprintf("%s@%s", opname, pathClass(path))
 	var ov fdo.Voucher
 	if err := cbor.Unmarshal(mutated, &ov); err != nil {
-		return ev.Result{NonTrivial: len(d.V.Owners) > 0, Class: "rejected-at-decode/" + opname, ID: fmt.Sprintf("%s|%s|%s|%d", d.V.id(), opname, path, d.Bit/8)}
+		return ev.Result{NonTrivial: true, Class: "rejected-at-decode/" + opname, ID: fmt.Sprintf("%s|%s|%s|%d", d.V.id(), opname, path, d.Bit/8)}
 	}
 	var why string
 	if pkey, pmsg, ok := ev.Guard(func() { why = verifyAll(&ov, b.dev) }); !ok {
 		return ev.Failf(pkey, "%s: %s at %s (arg %d, bit %d): %s", d.V.id(), opname, path, d.Mut.Arg, d.Bit, pmsg)
 	}
-	res := ev.Result{NonTrivial: len(d.V.Owners) > 0, Class: "rejected/" + cls, ID: fmt.Sprintf("%s|%s|%s|%d|%d", d.V.id(), opname, path, d.Mut.Arg, d.Bit)}
+	res := ev.Result{NonTrivial: true, Class: fmt.Sprintf("rejected/%s/len%d", cls, min(len(d.V.Owners), 2)), ID: fmt.Sprintf("%s|%s|%s|%d|%d", d.V.id(), opname, path, d.Mut.Arg, d.Bit)}
 	if why != "" {
 		return res
 	}
@@ -701,7 +701,7 @@ func allConfigs() []vcfg {
 }
 
 func genAlt(t *rapid.T) altDesc {
-	d := altDesc{V: genV(t, 1), Bit: -1}
+	d := altDesc{V: genV(t, 0), Bit: -1}
 	if rapid.IntRange(0, 2).Draw(t, "bitflip") == 0 {
 		d.Bit = rapid.IntRange(0, 1<<17).Draw(t, "bit")
 	} else {
@@ -728,11 +728,11 @@ func TestC04(t *testing.T) {
 	r.SetRule("extension-histories", "rapid-generated histories: a freshly signed voucher (key, enc, 0..3 initial extensions, every intermediate object kept) then 1..7 operations 'extend pooled voucher #i with its current owner key to owner key j', on the object itself or on a decoded copy, so the same object is extended several times to different owners (forks) at every entry-slice length/capacity. Oracle after every operation, for EVERY voucher obtained so far: all verification steps pass, OwnerPublicKey is the key of that voucher's own last extension, entry count and encoding are what they were when it was created. Non-trivial: some object extended at least twice; distinct by descriptor.")
 	ev.Rapid(r, "extension-histories", ev.N{Quick: 1500, Thorough: 60000}, genHist, evalHist)
 
-	r.SetRule("alteration", "voucher from (key, enc, owner sequence 1..4) × one structure-aware mutation (all operators of the engine, descending into the header bstr, entry payloads and protected headers) or one bit flip of the encoded voucher. Oracle: decoding fails or at least one of VerifyHeader/VerifyManufacturerKey/VerifyCertChainHash/VerifyDeviceCertChain/VerifyEntries/OwnerPublicKey fails — unless the alteration lies in the outer version or an entry's unprotected header map, or the decoded voucher re-encodes to the original bytes; never a panic. Non-trivial: altered voucher with ≥1 entry; distinct by (voucher, operator, path, arg/bit).")
+	r.SetRule("alteration", "voucher from (key, enc, owner sequence 0..4: a voucher without entries is bound by the header HMAC alone) × one structure-aware mutation (all operators of the engine, descending into the header bstr, entry payloads and protected headers) or one bit flip of the encoded voucher. Oracle: decoding fails or at least one of VerifyHeader/VerifyManufacturerKey/VerifyCertChainHash/VerifyDeviceCertChain/VerifyEntries/OwnerPublicKey fails — unless the alteration lies in the outer version or an entry's unprotected header map, or the decoded voucher re-encodes to the original bytes; never a panic. Non-trivial: every altered voucher; distinct by (voucher, operator, path, arg/bit).")
 	ev.Rapid(r, "alteration", ev.N{Quick: 16000, Thorough: 600000}, genAlt, evalAlt)
 
 	// exhaustive bit flips of one voucher per key type (thorough: all bits; quick: every 3rd byte)
-	r.SetRule("all-bits", "enumeration: every bit (thorough) / one bit in every third byte (quick) of one 2-entry voucher per key type and encoding; same oracle as alteration")
+	r.SetRule("all-bits", "enumeration: every bit (thorough) / one bit in every third byte (quick) of one 2-entry and one 0-entry voucher per key type and encoding; same oracle as alteration")
 	ev.Enum(r, "all-bits", r.Thorough(), func(yield func(altDesc) bool) {
 		idx := 0
 		for _, k := range deploy.KeyNames {
@@ -740,21 +740,23 @@ func TestC04(t *testing.T) {
 				if e == "cose" && strings.HasPrefix(k, "RSA") {
 					continue
 				}
-				v := vcfg{Key: k, Enc: e, Owners: []int{1, 2}, Dev: 4}
-				b := build(v, false)
-				if b.err != nil {
-					continue
-				}
-				for bit := 0; bit < len(b.bytes)*8; bit++ {
-					if !r.Thorough() && !(bit/8%3 == 0 && bit%8 == (bit/8)%8) {
+				for _, owners := range [][]int{{1, 2}, {}} {
+					v := vcfg{Key: k, Enc: e, Owners: owners, Dev: 4}
+					b := build(v, false)
+					if b.err != nil {
 						continue
 					}
-					idx++
-					if !r.Mine(idx) {
-						continue
-					}
-					if !yield(altDesc{V: v, Bit: bit}) {
-						return
+					for bit := 0; bit < len(b.bytes)*8; bit++ {
+						if !r.Thorough() && !(bit/8%3 == 0 && bit%8 == (bit/8)%8) {
+							continue
+						}
+						idx++
+						if !r.Mine(idx) {
+							continue
+						}
+						if !yield(altDesc{V: v, Bit: bit}) {
+							return
+						}
 					}
 				}
 			}
